@@ -211,8 +211,28 @@ func (C01) Apply(env world.Env, mm mc.Model, ev string) mc.Step {
 		st.Outcome = "env"
 	case "NextBlock":
 		before := w.Balances(env.Ctx())
+		snapBefore := c01Snapshot(w, env.Ctx(), m.Start)
 		if bp := env.NextBlock(day); bp != nil {
 			vs = append(vs, viol("no-panic", "block-panic", "%s", bp.Value))
+		}
+		// an account stays credited as a prover only by proving: at a reward block (every 2nd height) of a file past its
+		// first window, a prover without an accepted proof since the start of the previous proof window loses its seat
+		if H := env.Ctx().BlockHeight(); H%2 == 0 && snapBefore.found {
+			I := snapBefore.file.ProofInterval
+			if I > 0 && m.Start+I < H {
+				lastWindowStart := H - (H-m.Start)%I - I
+				snapAfter := c01Snapshot(w, env.Ctx(), m.Start)
+				for _, y := range append(append([]string{}, c01Provers...), "P4") {
+					rec, has := snapBefore.proofs[w.A(y).Bech]
+					if has && acctListed(snapBefore.file, w.A(y).Addr) && rec.LastProven < lastWindowStart {
+						st.Exercised = append(st.Exercised, "stale-prover-at-reward-block")
+						if snapAfter.found && acctListed(snapAfter.file, w.A(y).Addr) {
+							vs = append(vs, viol("prover-status-only-by-valid-proof", "stale-prover-keeps-its-seat",
+								"reward block at height %d (file start %d, proof window %d): %s last proved at height %d, before the previous window [%d,%d), and is still listed", H, m.Start, I, y, rec.LastProven, lastWindowStart, lastWindowStart+I))
+						}
+					}
+				}
+			}
 		}
 		m.Blocks++
 		m.Gas = 0
